@@ -10,7 +10,7 @@ from ..gen_session import SessionGen, observation, DIMS
 LEVEL = "exploration"
 RULE = ("seeded random histories of succeeding inputs (definitions, redefinition/shadowing of variables and functions, "
         "function values stored in variables, units with aliases, structs, lists, ans/_, prints, imports) interleaved "
-        "with failing inputs: (a) submitted one at a time, (b) the succeeding inputs joined into one multi-line input, "
+        "with failing inputs: (a) submitted one at a time, (b) the succeeding inputs joined into one multi-line input, (d) the same inputs cut into 2-4 multi-statement inputs, "
         "(c) the file written by the real `save` command (fed with the ok/err status of every input) replayed in a fresh "
         "session — compared on concatenated print output, final result, names, signatures and raw values of all "
         "globals. Clone independence: a fork and its origin are driven with different suffixes (list cons/cons_end on "
@@ -58,6 +58,13 @@ def gen_history(rng, k):
                 hist.append(f"fn {f}(x: {d}) -> {d} = x * 7")
             hist.append(f"print({v}(1 {DIMS[d][0]}))".replace("(1 )", "(1)"))
             f3 = True
+        elif r < 0.36 and r >= 0.26:
+            # an expression statement directly followed by a reader of the last result: in a joined input `ans` must be
+            # the value of the statement before it, not the last result of an earlier input
+            nd = rng.choice(list(DIMS))
+            hist.append(gen.quantity(nd, 1))
+            hist.append(rng.choice(["print(ans)", "ans * 2", "print(_ + ans)", f"let {gen.fresh('va')} = ans", "[ans, _]"]))
+            gen.have_result = True
         elif r < 0.26 and gen.vars:
             # shadowing: redefine a variable with another dimension, and use it
             v = rng.choice(list(gen.vars))
@@ -146,6 +153,37 @@ def run_modes(sh, w, rng, k, tmpdir):
             d = diff_snap(snap_a, snapshot(w, b, gen))
             if d:
                 problems.append("batched: " + "; ".join(d[:3]))
+        # (d) chunked: the same inputs in 2-4 multi-statement inputs (what a pasted block or `numbat file -e ...` does)
+        if len(ok_inputs) >= 3:
+            cuts = sorted(rng.sample(range(1, len(ok_inputs)), min(len(ok_inputs) - 1, rng.randint(1, 3))))
+            chunks = [ok_inputs[i:j] for i, j in zip([0] + cuts, cuts + [len(ok_inputs)])]
+            case["chunks"] = chunks
+            dsid = w.fork("p")
+            sids.append(dsid)
+            prints_d, last_d, failed = [], None, False
+            for ch in chunks:
+                rd = w.eval(dsid, (";" if rng.random() < 0.15 and all("\n" not in x for x in ch) else "\n").join(ch), stmts=False)
+                if rd.get("status") == "panic":
+                    sh.count("panics_left_to_C08")
+                    return
+                if not rd.get("ok"):
+                    problems.append(f"chunked: the input {ch!r} fails after {chunks.index(ch)} earlier chunks: "
+                                    f"{rd.get('stage')}/{rd.get('kind')}: {rd.get('msg')}")
+                    failed = True
+                    break
+                prints_d += rd.get("prints") or []
+                if rd.get("value") is not None:
+                    last_d = rd
+            if not failed:
+                if prints_d != prints_a:
+                    problems.append(f"chunked {[len(c) for c in chunks]}: print output {prints_d} differs from incremental {prints_a}")
+                if (observation(last_d).get("value") if last_d else None) != (observation(last_a).get("value") if last_a else None):
+                    problems.append(f"chunked: final result {last_d.get('val_text') if last_d else None!r} differs from the last "
+                                    f"incremental result {last_a.get('val_text') if last_a else None!r}")
+                d = diff_snap(snap_a, snapshot(w, dsid, gen))
+                if d:
+                    problems.append("chunked: " + "; ".join(d[:3]))
+            sh.count("chunked_modes_compared")
         # (c) saved by the real `save` command, replayed
         path = os.path.join(tmpdir, f"hist_{k}.nbt")
         rs = w.call({"op": "history_save", "sid": a, "path": path, "entries": [[t, ok] for t, ok in entries]})
